@@ -15,4 +15,14 @@ CHECKS = {
                 "basic.ReadN's loop (tied by its extracted branch list and by differential runs incl. malformed streams)",
         "technique": "Lean 4 proof (induction over the chunk list / message list) + regenerated tie lemmas + differential correspondence",
     },
+    "C20": {
+        "text": "Lean 4 theorem by recursion over the (nested) target type: for every compatible source/target pair and every "
+                "value, conversion succeeds, is well typed and converting back is the exact inverse (hence injective: every "
+                "element, key and field preserved); kind clashes are refused at any depth; tied to conversion.go by the "
+                "regenerated case table/call lists of convertFrom, convertSlice/Map/Struct and AsInt64 and by differential "
+                "runs of ConvertFrom on reflect-built types against the compiled model",
+        "note": "trusts the Lean kernel, the extractor, reflect's Set*/truncation semantics as modelled (wrapS/wrapU), the "
+                "FloatExact hypothesis; narrowing/sign changes are modelled and compared but not part of the claim",
+        "technique": "Lean 4 proof (mutual structural recursion over nested GoType) + regenerated tie lemmas + differential correspondence",
+    },
 }
